@@ -89,6 +89,7 @@ Definition kind_okb (o : op) : bool :=
   | OpenC p | OpenX p | OpenW p _ | OpenA p _ => file_path p
   | Remove p => negb (dir_path p)
   | Symlink t p => link_path p
+  | Rename s0 d => file_path s0 && file_path d
   | Utime _ | OpenL _ | OpenR _ | Listdir _ => true
   end.
 Definition kind_ok (f : fs) (o : op) : Prop :=
@@ -161,6 +162,20 @@ Proof.
   - destruct (parent_ok f p && negb (exists_ f p)) eqn:E; [|exact HS].
     apply andb_true_iff in E. destruct E as [E1 E2]. apply negb_true_iff in E2.
     apply shape_set; auto using not_dir_of_absent. intros t0 [= <-]. eapply Hsym. reflexivity.
+  - (* rename of a file onto a file name *)
+    apply andb_true_iff in Hk. destruct Hk as [Hk1 Hk2].
+    assert (Hmv : forall nd, lookup f s = Some nd -> kindb d nd = true -> (forall t, nd = Link t -> False) ->
+                             is_dir f s = false -> can_write f d = true -> shape (set (remove f s) d nd)).
+    { intros nd Hl Hkd Hnl Hnd Hcw. destruct (not_dir_of_can_write _ _ Hcw) as [Hdd Hpd].
+      assert (HS' : shape (remove f s)) by (apply shape_remove; assumption).
+      assert (Hmono : forall r, is_dir f r = true -> is_dir (remove f s) r = true).
+      { intros r Hr. destruct (path_eq_dec s r) as [-> | Hne]; [congruence|]. unfold is_dir. rewrite lookup_remove_other by exact Hne. exact Hr. }
+      apply shape_set; [exact HS' | exact Hkd | | | intros t E; destruct (Hnl t E)].
+      - destruct d as [|c0 d0]; [reflexivity|]. apply Hmono. exact Hpd.
+      - unfold is_dir in *. destruct (path_eq_dec s d) as [-> | Hne]; [rewrite lookup_remove_same; reflexivity|].
+        rewrite lookup_remove_other by exact Hne. exact Hdd. }
+    destruct (lookup f s) as [[|c|c|]|] eqn:El; try exact HS; (destruct (can_write f d) eqn:Ecw; [|exact HS]);
+      (apply Hmv; [reflexivity | exact Hk2 | intros t E; discriminate E | unfold is_dir; rewrite El; reflexivity | reflexivity]).
 Qed.
 
 Lemma tear_shape f o j : shape f -> kind_ok f o -> shape (tear_op o j f).
@@ -182,16 +197,18 @@ Definition link_inv (f : fs) : Prop :=
   forall K K' h n, lookup f (model_file K) = Some (File [T_MODEL; K'; h; n]) -> n <> 0%N ->
     lookup f (csv n) = Some (File [T_CSV; h]).
 
-(* holds in every intermediate and torn state *)
-Definition J (f : fs) : Prop := shape f /\ link_inv f.
-
-(* the dataset index is consistent: holds between transactions, not inside the index window *)
+(* J holds in every intermediate and torn state *)
+(* the dataset index is consistent: an index entry .hash/<h>/dataN.csv is the only entry of its directory,
+   and dataN.csv / dataN.datainfo are complete and hold that dataset.  Since the entry is created last
+   (commit b547698) this holds in EVERY intermediate and torn state. *)
 Definition ds_inv (f : fs) : Prop :=
-  forall h, is_dir f (hdir h) = true ->
-    exists n di, n <> 0%N
-      /\ (forall c, exists_ f (hdir h ++ [c]) = true <-> c = CCsv n)
+  forall h c, exists_ f (hdir h ++ [c]) = true ->
+    exists n di, c = CCsv n /\ n <> 0%N
+      /\ (forall c', exists_ f (hdir h ++ [c']) = true -> c' = c)
       /\ lookup f (csv n) = Some (File [T_CSV; h])
       /\ lookup f (dinfo n) = Some (File [T_DI; di; n]).
+
+Definition J (f : fs) : Prop := shape f /\ link_inv f /\ ds_inv f.
 
 Definition ready (f : fs) : Prop := is_dir f [CDb] = true.
 
@@ -199,32 +216,12 @@ Definition in_ds (p : path) : bool := match p with CDb :: CDatasets :: _ => true
 Definition is_model_file (p : path) : bool := match p with [CDb; CKey _; CModelFile] => true | _ => false end.
 Definition is_csv (p : path) : bool := match p with [CDb; CDatasets; CCsv _] => true | _ => false end.
 
-Lemma ds_ok_ds_inv f : ds_ok f = true -> ds_inv f.
+Lemma ds_inv_frame f g :
+  (forall p, in_ds p = true -> dir_path p = false -> lookup g p = lookup f p) -> ds_inv f -> ds_inv g.
 Proof.
-  intros H h Hd. unfold ds_ok in H. rewrite forallb_forall in H.
-  assert (Hin : In h (dhashes f)).
-  { unfold dhashes, all_paths. apply in_flat_map. exists (hdir h). split; [|left; reflexivity].
-    apply in_map_iff. exists (hdir h, Dir). split; [reflexivity|]. apply lookup_in. apply is_dir_lookup. exact Hd. }
-  specialize (H h Hin). unfold index_ok in H.
-  destruct (children f (hdir h)) as [|c [|c2 l]] eqn:Ec; try discriminate; [|destruct c; discriminate].
-  destruct c as [| | | | | | | | | | | | | | | | n | | | | |]; try discriminate.
-  destruct (lookup f (csv n)) as [[|cc| |]|] eqn:E1; try discriminate.
-  destruct cc as [|t [|h' [|? ?]]]; try discriminate.
-  destruct (lookup f (dinfo n)) as [[|dd| |]|] eqn:E2; try discriminate.
-  destruct dd as [|t2 [|di [|n' [|? ?]]]]; try discriminate.
-  repeat (apply andb_true_iff in H; destruct H as [H ?]).
-  apply N.eqb_eq in H. apply N.eqb_eq in H3. apply N.eqb_eq in H2. apply N.eqb_eq in H1. apply negb_true_iff in H0.
-  apply N.eqb_neq in H0. subst. exists n, di. repeat split; auto.
-  - intros Hc. apply in_children in Hc. rewrite Ec in Hc. destruct Hc as [<-|[]]. reflexivity.
-  - intros ->. apply in_children. rewrite Ec. left. reflexivity.
-Qed.
-
-Lemma ds_inv_frame f g : (forall p, in_ds p = true -> lookup g p = lookup f p) -> ds_inv f -> ds_inv g.
-Proof.
-  intros H HD h Hd. unfold is_dir in Hd. rewrite H in Hd by reflexivity.
-  destruct (HD h Hd) as [n [di [H1 [H2 [H3 H4]]]]]. exists n, di. repeat split; auto.
-  - intros Hc. apply H2. unfold exists_ in *. rewrite <- H by reflexivity. exact Hc.
-  - intros Hc. unfold exists_. rewrite H by reflexivity. apply H2. exact Hc.
+  intros H HD h c Hc. unfold exists_ in Hc. rewrite H in Hc by reflexivity.
+  destruct (HD h c Hc) as [n [di [E [H1 [H2 [H3 H4]]]]]]. exists n, di. repeat split; auto.
+  - intros c' Hc'. apply H2. unfold exists_ in *. rewrite H in Hc' by reflexivity. exact Hc'.
   - rewrite H by reflexivity. exact H3.
   - rewrite H by reflexivity. exact H4.
 Qed.
@@ -239,46 +236,72 @@ Qed.
 (* directories are never removed or overwritten *)
 Lemma is_dir_mono o f q : is_dir f q = true -> is_dir (apply_op o f) q = true.
 Proof.
-  intros H. destruct (wtarget o) as [p|] eqn:Ht.
-  2:{ unfold is_dir. rewrite apply_op_frame by congruence. exact H. }
+  intros H. apply is_dir_lookup in H.
+  assert (Hr : forall s0 d, o = Rename s0 d -> is_dir (apply_op o f) q = true).
+  { intros s0 d ->. cbn [apply_op]. apply is_dir_lookup.
+    destruct (lookup f s0) as [[|c|c|]|] eqn:Es; try exact H; (destruct (can_write f d) eqn:Ecw; [|exact H]);
+      (assert (d <> q) by (intros ->; unfold can_write in Ecw; rewrite H in Ecw; discriminate));
+      (assert (s0 <> q) by (intros ->; congruence));
+      rewrite lookup_set_other, lookup_remove_other by assumption; exact H. }
+  destruct (wsource o) as [s0|] eqn:Eso; [destruct o; try discriminate; eapply Hr; reflexivity|].
+  destruct (wtarget o) as [p|] eqn:Ht.
+  2:{ apply is_dir_lookup. rewrite apply_op_frame by congruence. exact H. }
   destruct (path_eq_dec p q) as [-> | Hne].
-  2:{ unfold is_dir. rewrite apply_op_frame by congruence. exact H. }
-  apply is_dir_lookup in H.
-  destruct o; cbn [wtarget] in Ht; try discriminate; injection Ht as ->; cbn [apply_op];
+  2:{ apply is_dir_lookup. rewrite apply_op_frame by congruence. exact H. }
+  destruct o; cbn [wtarget] in Ht; try discriminate; try (cbn in Eso; discriminate Eso); injection Ht as ->; cbn [apply_op];
     unfold exists_, can_write; rewrite ?H; cbn; rewrite ?andb_false_r; apply is_dir_lookup; exact H.
 Qed.
 Lemma is_dir_mono_ops ops : forall f q, is_dir f q = true -> is_dir (run_ops ops f) q = true.
 Proof. induction ops as [|o ops IH]; intros f q H; [exact H|]. rewrite run_ops_cons. apply IH, is_dir_mono, H. Qed.
 
-(* operations that cannot disturb J: right kind, no link, not a model file, not a csv *)
-Definition jquiet (o : op) : bool :=
-  kind_okb o && nosym o
-  && match wtarget o with Some p => negb (is_model_file p) && negb (is_csv p) | None => true end.
+(* paths an operation may change without disturbing J: not a model file, not a csv, and inside .datasets
+   only directories *)
+Definition quiet_path (p : option path) : bool :=
+  match p with
+  | Some q => negb (is_model_file q) && negb (is_csv q) && (negb (in_ds q) || dir_path q)
+  | None => true
+  end.
+Definition jquiet (o : op) : bool := kind_okb o && nosym o && quiet_path (wtarget o) && quiet_path (wsource o).
 (* operations that in addition stay out of .datasets *)
-Definition dsquiet (o : op) : bool :=
-  jquiet o && match wtarget o with Some p => negb (in_ds p) | None => true end.
+Definition out_ds (p : option path) : bool := match p with Some q => negb (in_ds q) | None => true end.
+Definition dsquiet (o : op) : bool := jquiet o && out_ds (wtarget o) && out_ds (wsource o).
 
 Lemma jquiet_kind f o : jquiet o = true -> kind_ok f o.
 Proof.
-  unfold jquiet. intros H. apply andb_true_iff in H. destruct H as [H _]. apply andb_true_iff in H.
-  destruct H as [H1 H2]. split; [exact H1|]. intros t p ->. discriminate.
+  unfold jquiet. intros H. repeat (apply andb_true_iff in H; destruct H as [H ?]).
+  split; [exact H|]. intros t p ->. discriminate.
 Qed.
 
-Lemma jquiet_frame o q :
-  jquiet o = true -> (is_model_file q = true \/ is_csv q = true) -> wtarget o <> Some q.
+Definition protected (q : path) : Prop :=
+  is_model_file q = true \/ is_csv q = true \/ (in_ds q = true /\ dir_path q = false).
+
+Lemma quiet_path_frame p q : quiet_path p = true -> protected q -> p <> Some q.
 Proof.
-  unfold jquiet. intros H Hq E. rewrite E in H. apply andb_true_iff in H. destruct H as [_ H].
-  apply andb_true_iff in H. destruct H as [H1 H2]. apply negb_true_iff in H1. apply negb_true_iff in H2.
-  destruct Hq; congruence.
+  intros H Hq ->. cbn in H. apply andb_true_iff in H. destruct H as [H H3]. apply andb_true_iff in H.
+  destruct H as [H1 H2]. apply negb_true_iff in H1. apply negb_true_iff in H2.
+  destruct Hq as [Hq | [Hq | [Hq1 Hq2]]]; try congruence. rewrite Hq1, Hq2 in H3. discriminate.
+Qed.
+
+Lemma jquiet_frame o q : jquiet o = true -> protected q -> wtarget o <> Some q /\ wsource o <> Some q.
+Proof.
+  unfold jquiet. intros H Hq. apply andb_true_iff in H. destruct H as [H H2]. apply andb_true_iff in H.
+  destruct H as [_ H1]. split; eapply quiet_path_frame; eassumption.
 Qed.
 
 Lemma jquiet_step f o : jquiet o = true -> J f -> (forall j, J (tear_op o j f)) /\ J (apply_op o f).
 Proof.
-  intros Hq [HS HL]. split; [intros j|]; split.
+  intros Hq [HS [HL HD]].
+  assert (Hfa : forall q, protected q -> lookup (apply_op o f) q = lookup f q).
+  { intros q Hp. destruct (jquiet_frame o q Hq Hp). apply apply_op_frame; assumption. }
+  assert (Hft : forall j q, protected q -> lookup (tear_op o j f) q = lookup f q).
+  { intros j q Hp. destruct (jquiet_frame o q Hq Hp). apply tear_op_frame; assumption. }
+  split; [intros j|]; (split; [|split]).
   - apply tear_shape; [exact HS | apply jquiet_kind; exact Hq].
-  - eapply link_inv_frame; [| |exact HL]; intros p Hp; apply tear_op_frame; eapply jquiet_frame; eauto.
+  - eapply link_inv_frame; [| |exact HL]; intros p Hp; apply Hft; unfold protected; auto.
+  - eapply ds_inv_frame; [|exact HD]. intros p H1 H2. apply Hft. unfold protected. auto.
   - apply step_shape; [exact HS | apply jquiet_kind; exact Hq].
-  - eapply link_inv_frame; [| |exact HL]; intros p Hp; apply apply_op_frame; eapply jquiet_frame; eauto.
+  - eapply link_inv_frame; [| |exact HL]; intros p Hp; apply Hfa; unfold protected; auto.
+  - eapply ds_inv_frame; [|exact HD]. intros p H1 H2. apply Hfa. unfold protected. auto.
 Qed.
 
 Fixpoint jsteps (ops : list op) (f : fs) : Prop :=
@@ -307,15 +330,18 @@ Proof.
     + change (J (crash (apply_op o f) ops k torn)). apply IH; assumption.
 Qed.
 
-(* dsquiet operations keep everything under .datasets, all model files and [CDb] *)
+(* dsquiet operations keep everything under .datasets and all model files *)
 Lemma dsquiet_ops_frame ops : forall f p,
   forallb dsquiet ops = true -> (in_ds p = true \/ is_model_file p = true) -> lookup (run_ops ops f) p = lookup f p.
 Proof.
   induction ops as [|o ops IH]; intros f p H Hp; [reflexivity|]. cbn in H. apply andb_true_iff in H.
-  destruct H as [Ho H]. rewrite run_ops_cons, IH by assumption. apply apply_op_frame. intros E.
-  unfold dsquiet in Ho. apply andb_true_iff in Ho. destruct Ho as [Hj Hd]. rewrite E in Hd.
-  apply negb_true_iff in Hd. destruct Hp as [Hp|Hp]; [congruence|].
-  eapply jquiet_frame; [exact Hj | left; exact Hp | exact E].
+  destruct H as [Ho H]. rewrite run_ops_cons, IH by assumption.
+  unfold dsquiet in Ho. apply andb_true_iff in Ho. destruct Ho as [Ho Hd2]. apply andb_true_iff in Ho. destruct Ho as [Hj Hd1].
+  apply apply_op_frame; intros E; [rewrite E in Hd1 | rewrite E in Hd2]; cbn in *.
+  - apply negb_true_iff in Hd1. destruct Hp as [Hp|Hp]; [congruence|].
+    destruct (jquiet_frame o p Hj (or_introl Hp)) as [X _]. exact (X E).
+  - apply negb_true_iff in Hd2. destruct Hp as [Hp|Hp]; [congruence|].
+    destruct (jquiet_frame o p Hj (or_introl Hp)) as [_ X]. exact (X E).
 Qed.
 
 (* ========================================================================================= *)
@@ -372,7 +398,8 @@ Lemma spec_of_dsquiet {A} (P : fs -> Prop) (m : M A) (Q : A -> fs -> Prop) (E : 
 Proof.
   intros Hq H f HJ HP. split; [|apply H; assumption].
   apply jsteps_quiet; [|exact HJ]. specialize (Hq f). rewrite forallb_forall in *. intros o Ho.
-  specialize (Hq o Ho). unfold dsquiet in Hq. apply andb_true_iff in Hq. tauto.
+  specialize (Hq o Ho). unfold dsquiet in Hq. apply andb_true_iff in Hq. destruct Hq as [Hq _].
+  apply andb_true_iff in Hq. tauto.
 Qed.
 
 (* ========================================================================================= *)
@@ -600,6 +627,27 @@ Proof.
   destruct (length q) as [|[|[|[|[|n]]]]]; reflexivity.
 Qed.
 
+Lemma is_model_file_spec q : is_model_file q = true -> exists K, q = model_file K.
+Proof.
+  intros H. destruct q as [|c1 q]; cbn in H; try discriminate. destruct c1; cbn in H; try discriminate.
+  destruct q as [|c2 q]; cbn in H; try discriminate. destruct c2; cbn in H; try discriminate.
+  destruct q as [|c3 q]; cbn in H; try discriminate. destruct c3; cbn in H; try discriminate.
+  destruct q; cbn in H; try discriminate. eexists. reflexivity.
+Qed.
+Lemma is_csv_spec q : is_csv q = true -> exists n, q = csv n.
+Proof.
+  intros H. destruct q as [|c1 q]; cbn in H; try discriminate. destruct c1; cbn in H; try discriminate.
+  destruct q as [|c2 q]; cbn in H; try discriminate. destruct c2; cbn in H; try discriminate.
+  destruct q as [|c3 q]; cbn in H; try discriminate. destruct c3; cbn in H; try discriminate.
+  destruct q; cbn in H; try discriminate. eexists. reflexivity.
+Qed.
+Lemma jquiet_mkdir q : dir_path q = true -> jquiet (Mkdir q) = true.
+Proof.
+  intros Hd. unfold jquiet. cbn [kind_okb nosym wtarget wsource quiet_path]. rewrite Hd, orb_true_r.
+  destruct (is_model_file q) eqn:E1; [destruct (is_model_file_spec q E1) as [K ->]; discriminate|].
+  destruct (is_csv q) eqn:E2; [destruct (is_csv_spec q E2) as [n ->]; discriminate|]. reflexivity.
+Qed.
+
 (* mkdir -p of a path all of whose ancestors are directory names: succeeds, J all along *)
 Lemma runs_mkdir_p f p :
   J f -> (forall q, is_prefix q p -> dir_path q = true) ->
@@ -611,8 +659,7 @@ Proof.
   destruct (mkdir_p_aux_spec (length p) p f (le_n _) (shape_path_clear f p (proj1 HJ) Hd)) as [Hr [H1 [H2 Hops]]].
   eexists. split; [|split; [exact H1 | exact H2]]. repeat split; [exact Hr|].
   apply jsteps_quiet; [|exact HJ]. apply forallb_forall. intros o Ho. rewrite Forall_forall in Hops.
-  destruct (Hops o Ho) as [q [-> Hq]]. unfold jquiet. cbn [kind_okb nosym wtarget]. rewrite (Hd q Hq). cbn.
-  destruct q as [|[] [|[] [|[] [|? ?]]]]; try reflexivity; specialize (Hd _ Hq); cbn in Hd; discriminate.
+  destruct (Hops o Ho) as [q [-> Hq]]. apply jquiet_mkdir, Hd, Hq.
 Qed.
 
 Lemma touch_eq p f :
@@ -629,14 +676,14 @@ Proof. intros HJ E Hq. unfold runs. rewrite E. cbn [fst snd]. repeat split. appl
 
 (* touching a file name whose parent exists *)
 Lemma runs_touch f p :
-  J f -> file_path p = true -> is_model_file p = false -> is_csv p = false -> parent_ok f p = true ->
+  J f -> file_path p = true -> is_model_file p = false -> is_csv p = false -> in_ds p = false -> parent_ok f p = true ->
   exists f', runs (touch p) f tt f' /\ exists_ f' p = true /\ (forall q, q <> p -> lookup f' q = lookup f q)
              /\ (exists_ f p = true -> f' = f).
 Proof.
-  intros HJ Hfp Hm Hc Hp. rewrite <- (negb_involutive (is_model_file p)) in Hm.
+  intros HJ Hfp Hm Hc Hds Hp.
   assert (Hq1 : jquiet (Utime p) = true) by reflexivity.
   assert (Hq2 : jquiet (OpenC p) = true).
-  { unfold jquiet. cbn [kind_okb nosym wtarget]. rewrite Hfp, Hc. apply negb_false_iff in Hm. rewrite Hm. reflexivity. }
+  { unfold jquiet. cbn [kind_okb nosym wtarget wsource quiet_path]. rewrite Hfp, Hm, Hc, Hds. reflexivity. }
   destruct (exists_ f p) eqn:Ee.
   - exists f. split; [|split; [exact Ee | split; [reflexivity | reflexivity]]].
     apply (jquiet_runs_list _ [Utime p]); [exact HJ | rewrite touch_eq, Ee; reflexivity | reflexivity].
@@ -654,10 +701,10 @@ Lemma lock_eq p f : lock p f = (let '(ops, r) := touch p f in
 Proof. unfold lock, bind. destruct (touch p f) as [ops r]. destruct r; reflexivity. Qed.
 
 Lemma runs_lock f p :
-  J f -> file_path p = true -> is_model_file p = false -> is_csv p = false -> parent_ok f p = true ->
+  J f -> file_path p = true -> is_model_file p = false -> is_csv p = false -> in_ds p = false -> parent_ok f p = true ->
   exists f', runs (lock p) f tt f' /\ (forall q, q <> p -> lookup f' q = lookup f q).
 Proof.
-  intros HJ Hfp Hm Hc Hp. destruct (runs_touch f p HJ Hfp Hm Hc Hp) as [f' [Hr [_ [Hfr _]]]].
+  intros HJ Hfp Hm Hc Hds Hp. destruct (runs_touch f p HJ Hfp Hm Hc Hds Hp) as [f' [Hr [_ [Hfr _]]]].
   exists f'. split; [|exact Hfr]. unfold lock. eapply runs_bind; [exact Hr|].
   assert (HJ' : J f') by (eapply runs_J; eassumption).
   apply (runs_single _ (OpenL p)); [reflexivity | intros j; exact HJ' | exact HJ'].
@@ -690,7 +737,7 @@ Proof.
   destruct (runs_mkdir_p f (meta_dir K) HJ (prefixes_meta_dir K)) as [fa [Ra [Da Fa]]].
   assert (HJa : J fa) by (eapply runs_J; eassumption).
   assert (Hdb : is_dir fa [CDb] = true) by (apply Da; exists [CKey K; CPharmpy]; reflexivity).
-  destruct (runs_lock fa db_lock HJa eq_refl eq_refl eq_refl Hdb) as [fb [Rb Fb]].
+  destruct (runs_lock fa db_lock HJa eq_refl eq_refl eq_refl eq_refl Hdb) as [fb [Rb Fb]].
   assert (HJb : J fb) by (eapply runs_J; eassumption).
   assert (Hmb : is_dir fb (meta_dir K) = true).
   { unfold is_dir. rewrite Fb by discriminate. apply Da, prefix_refl. }
@@ -1304,7 +1351,7 @@ Lemma runs_store_annotation f name a c :
              /\ lookup f' annot_path = Some (File (annot_store c name a))
              /\ (forall q, q <> annot_path -> q <> annot_lock -> lookup f' q = lookup f q).
 Proof.
-  intros HJ H0 Hc. destruct (runs_lock f annot_lock HJ eq_refl eq_refl eq_refl H0) as [fa [Ra Fa]].
+  intros HJ H0 Hc. destruct (runs_lock f annot_lock HJ eq_refl eq_refl eq_refl eq_refl H0) as [fa [Ra Fa]].
   assert (HJa : J fa) by (eapply runs_J; eassumption).
   assert (Hca : read_node (lookup fa annot_path) = Some c) by (rewrite Fa by discriminate; exact Hc).
   assert (Hcw : can_write fa annot_path = true).
